@@ -931,7 +931,10 @@ func _recover(n *node) {
 	dest := genValue(n)
 
 	n.exec = func(f *frame) bltn {
-		if f.anc.recovered == nil {
+		// The panic is recorded in the frame of the function running the deferred
+		// calls: the caller, or the activation the caller is a clone of (closures).
+		pf := f.anc.activation()
+		if pf.recovered == nil {
 			// TODO(mpl): maybe we don't need that special case, and we're just forgetting to unwrap the valueInterface somewhere else.
 			if isEmptyInterface(n.typ) {
 				return tnext
@@ -941,11 +944,11 @@ func _recover(n *node) {
 		}
 
 		if isEmptyInterface(n.typ) {
-			dest(f).Set(reflect.ValueOf(f.anc.recovered))
+			dest(f).Set(reflect.ValueOf(pf.recovered))
 		} else {
-			dest(f).Set(reflect.ValueOf(valueInterface{n, reflect.ValueOf(f.anc.recovered)}))
+			dest(f).Set(reflect.ValueOf(valueInterface{n, reflect.ValueOf(pf.recovered)}))
 		}
-		f.anc.recovered = nil
+		pf.recovered = nil
 		return tnext
 	}
 }
